@@ -56,6 +56,17 @@ def cases(tier, seed):
         for vs in itertools.product(["ok", "block"], repeat=m * 3):
             i += 1
             yield dict(_mk("v2", "v2", m, 3, vs, "o%d" % i), id=i)
+    # completion-style calls generate(prompt=...): all verdict matrices, refusals and rail exceptions, with and without options
+    for mode in ("dialog", "general", "passthrough"):
+        for exc in (False, True):
+            for m in (1, 2):
+                for vs in itertools.product(["ok", "block", "rewrite"], repeat=m * 2):
+                    i += 1
+                    c = _mk("v1", mode, m, 2, vs, "p%d" % i, exc=exc)
+                    c["api"] = "prompt"
+                    if i % 3 == 0:
+                        c["opts"] = [{"log": {"activated_rails": True}}, None]
+                    yield dict(c, id=i)
     # the LLM repeats itself: the very same text in every turn, the rails' verdicts differing per turn (all verdict matrices)
     for ver, modes in (("v2", ("v2",)), ("v1", ("dialog", "general", "passthrough"))):
         for mode in modes:
